@@ -581,6 +581,7 @@ def validation_rules(ck, fb):
             if m and all(w in m[1].group(1) for w in must):
                 return True
         return False
+    encoding_rule(ck, fb)
     for callee in ("read_edges", "read_faces", "read_cells"):
         sites = [(b, i, n) for b, i, n in rt.nodes(("call",)) if n.get("pn", "").endswith("::" + callee)]
         ok = bool(sites) and all(exact(rcn, b, ["elem_size(", "handle_encoding"]) for b, i, n in sites)
@@ -900,6 +901,27 @@ def range_rules(ck, fb):
     ck.floor("reader_vector_index_sites", ni, 3)
 
 
+def encoding_rule(ck, fb):
+    """shared by C07 and C18"""
+    from .canon import Canon
+    rt = [x for x in fb.by_cls.get(BFR, []) if x.name == "read_topo_chunk" and x.has_cfg][0]
+    rcn = Canon(rt)
+    ck.rule("V.enc", "read_topo_chunk dispatches to read_edges/read_faces/read_cells only when the handle encoding is known not to be IntEncoding::None (which has no element size and for which call_with_decoder does nothing: the counters would advance without any entity being added); the valence list is only read with an encoding other than None")
+    from .canon import split_eq
+    for callee in ("read_edges", "read_faces", "read_cells"):
+        sites = [(b, i, n) for b, i, n in rt.nodes(("call",)) if n.get("pn", "").endswith("::" + callee)]
+        okn = bool(sites)
+        for b, i, n in sites:
+            hit = False
+            for s_, pol, c in rcn.facts(b):
+                r_ = split_eq(s_)
+                if r_ and "handle_encoding" in s_ and any(x_.endswith("IntEncoding::None") or x_ == "None" for x_ in r_[1:]):
+                    if (r_[0] == "==" and pol is False) or (r_[0] == "!=" and pol is True):
+                        hit = True
+            okn = okn and hit
+        (ck.ok if okn else lambda r, w, t: ck.violate(r, w, t, "V.enc:%s" % callee))("V.enc", rt.where, "read_topo_chunk calls %s only with a handle encoding other than None" % callee)
+
+
 def order_rule(ck, fb):
     """C18: chunks may only refer to entities that earlier chunks delivered"""
     ck.rule("V.order", "in BinaryFileReader every handle built from a decoded integer is bounded by the reader's own *_read_ counter of that kind (entities delivered by earlier chunks), not by a mesh count: vertices are allocated from the header before any chunk is read, so the mesh count would admit references to vertices whose data has not been (and may never be) read")
@@ -1142,6 +1164,33 @@ def loop_rules(ck, fb):
                 if kind in ROBUST_EXITS:
                     robust_blocks.add(b)
             robust = kinds & ROBUST_EXITS
+            # a count that was itself extracted from the stream is untrusted: a loop bounded only by it, whose body keeps
+            # extracting from that stream, has to leave when the stream has failed (2^64 iterations are not an exit)
+            tainted = None
+            if "counter" in kinds and t and t.get("cond") and "/FileManager/" in f.file:
+                from .canon import Canon
+                cn_ = _CANON_CACHE.get(f.id) or _CANON_CACHE.setdefault(f.id, Canon(f))
+                streams = [p_["id"] for p_ in f.d["params"] if "istream" in p_["t"]]
+                for y in walk(f.resolve(t["cond"])):
+                    if isinstance(y, dict) and y.get("k") == "var" and y.get("id") in cn_.mods:
+                        for kind_, mb, mi, m_ in cn_.mods[y["id"]]:
+                            if m_.get("k") == "call" and m_.get("op") == ">>" and mb not in body and any(isinstance(z, dict) and z.get("k") == "var" and z.get("id") in streams for z in walk(f.resolve(m_))):
+                                tainted = y.get("n")
+                if tainted and not any(isinstance(z, dict) and z.get("k") == "var" and z.get("id") in streams for b2, i2, x2 in f.nodes(("call",)) if b2 in body for z in walk(f.resolve(x2))):
+                    tainted = None  # the body does not read from the stream
+            if tainted:
+                sblocks = set()
+                for b in body:
+                    tt = f.term(b)
+                    if not tt or not tt.get("cond") or all((s2 in body) for s2 in f.succ(b) if s2 is not None):
+                        continue
+                    calls2 = [x for x in walk(f.resolve(tt["cond"])) if isinstance(x, dict) and x.get("k") == "call"]
+                    if {c2.get("pn", "").split("::")[-1] for c2 in calls2} & set(STREAM_TESTS) and any("basic_ios" in c2.get("pn", "") or "basic_istream" in c2.get("pn", "") for c2 in calls2):
+                        sblocks.add(b)
+                if not sblocks:
+                    ck.violate("T.exit", f.loc(t), "%s: the loop is bounded only by the count %s that was read from the stream and keeps extracting from it: it needs an exit on the stream state (a declared count of 2^64 would spin on a failed stream)" % (f.pq.split("::")[-1][:40], tainted), "T.exit:%s:tainted" % f.pq)
+                    continue
+                robust_blocks = sblocks
             where = f.loc(t) if t else f.where
             what = "%s: loop with exits [%s]" % (f.pq.split("::")[-1][:40], "; ".join(descr)[:120])
             # every cycle through the loop header has to pass a robust exit test (a `continue` that jumps over the only
